@@ -72,6 +72,9 @@ func runCase(c ringlab.ChurnCfg, rep *batch.Report) batch.CaseResult {
 	rep.Count("joins_ok", int64(res.JoinsOK))
 	rep.Count("leaves_done", int64(res.LeavesDone))
 	rep.Count("backend_"+ringlab.Backend(c.Backend).String(), 1)
+	if c.RealRPC {
+		rep.Count("executions_over_real_rpc", 1)
+	}
 	if res.JoinsOK+res.LeavesDone > 0 && st.OpsChecked > 0 {
 		out.Sig = res.EventSig
 	}
@@ -115,6 +118,14 @@ func main() {
 		}
 		if c.Initial > c.MaxNodes-2 {
 			c.Initial = c.MaxNodes - 2
+		}
+		if !r.Quick() && i%8 == 7 && c.Backend == int(ringlab.Memory) {
+			// the real RPC path between the nodes (RemoteNode, twirp over HTTP/2, production timeouts)
+			c.NetV, c.RealRPC = false, true
+			c.MaxNodes = 6
+			if c.Initial > 4 {
+				c.Initial = 4
+			}
 		}
 		if r.WantCase(c.Name) {
 			cases = append(cases, c)
